@@ -18,18 +18,23 @@ class UnitType:
         if not hasattr(self, self.conversion[0]):
                 raise Exception('Conversion method is not implemented:', self.conversion[0])
         value, mag1, mag2 = magnitude1.value, self.baseunits1.magnitude, self.baseunits2.magnitude
+        mag1, mag2, scale = self._split(mag1, mag2)
         if isinstance(value, Decimal) or isinstance(mag1, Decimal) or isinstance(mag2, Decimal):
             # promote copies: the operand and the unit objects keep their own numbers
-            value, mag1, mag2 = Decimal(value), Decimal(mag1), Decimal(mag2)
+            value, mag1, mag2, scale = Decimal(value), Decimal(mag1), Decimal(mag2), Decimal(scale)
         error = magnitude1.error
         if error is not None and self.conversion[0]=="_convert_linear":
             # a linear conversion scales the absolute error like the value
             ratio = mag1 / mag2
             error = error * (ratio if isinstance(error, Decimal) else float(ratio))
         return Magnitude(
-            getattr(self, self.conversion[0])(value * mag1, *self.conversion[1:]) / mag2,
+            getattr(self, self.conversion[0])(value * mag1, *self.conversion[1:]) * scale / mag2,
             error
         )
+
+    def _split(self, mag1, mag2):
+        # factor applied before the conversion, factor divided out after it, factor of the result
+        return mag1, mag2, 1
         
     def add(self, unit1, unit2):
         if self.baseunits1.dimensions!=self.baseunits2.dimensions:
@@ -192,6 +197,18 @@ class LogarithmicUnitType(UnitType):
             return False
         return True
     
+    def _split(self, mag1, mag2):
+        # a level is scaled by the factor of its own (prefixed) logarithmic unit only; the factor of the
+        # other unit of a fraction (dBm/kHz, dBm/cm2) belongs to the linear quantity
+        from .base_units import get_unit_base
+        first1 = get_unit_base(*next(iter(self.baseunits1.baseunits.items())))
+        first2 = get_unit_base(*next(iter(self.baseunits2.baseunits.items())))
+        if first1.units in self.process and first2.units not in self.process:     # level -> linear
+            return first1.magnitude, mag2, mag1/first1.magnitude
+        if first2.units in self.process and first1.units not in self.process:     # linear -> level
+            return mag1*first2.magnitude/mag2, first2.magnitude, 1
+        return mag1, mag2, 1
+
     def _convert_B_B(self, value, exp=0):
         return value + exp
         
